@@ -31,9 +31,9 @@ def mc_cfg(ordered, resizes, dial, err, contract=True, sequential=False, caps="{
     return s
 
 
-def sim_cfg(resizes=2, dial=5, err=1):
+def sim_cfg(resizes=2, dial=5, err=1, ordered=False):
     return ("SPECIFICATION GSpec\nCONSTANTS\n  Size = 9\n  Caps = {1,2,3,4}\n  InitCaps = {1,2,3,4}\n  MaxResize = %d\n  MaxDial = %d\n"
-            "  MaxErr = %d\n  Ordered = FALSE\nACTION_CONSTRAINT UrgentAccept\n" % (resizes, dial, err))
+            "  MaxErr = %d\n  Ordered = %s\nACTION_CONSTRAINT UrgentAccept\n" % (resizes, dial, err, "TRUE" if ordered else "FALSE"))
 
 
 ALL_ACTIONS = {"init", "dial", "acq", "accept", "err", "close", "setmax", "tuner", "tdone", "lclose", "acancel", "aabort", "eof"}
@@ -407,12 +407,12 @@ def _ll_tv(ctx, state):
     _validate(ctx, state, "ll", tp, "LimitListener under concurrent connects, closes and cap changes")
 
 
-def schedules(ctx, state):
+def schedules(ctx, state, ordered=False):
     """TLC behaviours of the implementation-shaped model used as schedules: the lead (if any) first, then random ones;
     behaviours with a resize are preferred."""
     nb = 250 if ctx.quick else 2500
-    behs = ctx.tlc_simulate("ConnCap_Gen", sim_cfg(2, 5, 1), num=nb, depth=28)
-    behs += ctx.tlc_simulate("ConnCap_Gen", sim_cfg(3, 4, 0), num=nb, depth=28, seed=ctx.seed + 7919)
+    behs = ctx.tlc_simulate("ConnCap_Gen", sim_cfg(2, 5, 1, ordered), num=nb, depth=28)
+    behs += ctx.tlc_simulate("ConnCap_Gen", sim_cfg(3, 4, 0, ordered), num=nb, depth=28, seed=ctx.seed + 7919)
     # vacuity: every action of the model must occur in the generated behaviours
     acts = {s_["a"] for b in behs for s_ in b}
     missing = ALL_ACTIONS - acts
@@ -420,7 +420,7 @@ def schedules(ctx, state):
         ctx.inconclusive("TLC behaviours never take the model action(s) %s" % sorted(missing))
     ctx.cov["model_actions_exercised"] = sorted(acts)
     out, seen = [], set()
-    if state.get("lead"):
+    if state.get("lead") and not ordered:
         behs.insert(0, state["lead"])
     for b in behs:
         if not b or b[0].get("a") != "init":
@@ -437,24 +437,35 @@ def schedules(ctx, state):
 
 
 def _ll_replay(ctx, state):
-    behs = schedules(ctx, state)
-    inp = ctx.path("c17_schedules.ndjson")
+    summ = _ll_replay_batch(ctx, state, False)
+    if state["hook"] and summ["diverged"] * 10 > summ["behaviours"]:
+        # with the tuner order forced, the tree does not follow the model of the pinned code (unordered tuners): it may carry
+        # the repair - execute schedules of the ordered model as well (conformance of the repaired tree)
+        ctx.log("listener level: the tree diverges from the unordered-tuner model on %d schedules; executing schedules of the ordered model" % summ["diverged"])
+        _ll_replay_batch(ctx, state, True)
+
+
+def _ll_replay_batch(ctx, state, ordered):
+    behs = schedules(ctx, state, ordered)
+    inp = ctx.path("c17_schedules%s.ndjson" % ("_ordered" if ordered else ""))
     with open(inp, "w") as fh:
         for b in behs:
             fh.write(jdump(b) + "\n")
-    tp = ctx.path("c17_replay_trace.ndjson")
+    tp = ctx.path("c17_replay_trace%s.ndjson" % ("_ordered" if ordered else ""))
     rc, out = ctx.go_test(PKG_LL, "^TestVerifC17LLReplay$", env={"VERIF_IN": inp, "VERIF_OUT": tp}, tags=state["tags"], timeout=900)
     if rc != 0:
         ctx.inconclusive("C17 schedule replay harness failed:\n" + out[-3000:])
-    notes, ev, sigs = _validate(ctx, state, "ll-replay", tp, "LimitListener executing a TLC schedule")
+    notes, ev, sigs = _validate(ctx, state, "ll-replay-ordered" if ordered else "ll-replay", tp, "LimitListener executing a TLC schedule")
     summ = [x for x in notes if x.get("k") == "summary"]
     if not summ:
         ctx.inconclusive("C17 schedule replay wrote no summary")
-    ctx.log("listener level: %d TLC schedules executed (%s), %d realised step by step as the model predicts, %d diverged" % (
-        summ[0]["behaviours"], "gated" if state["hook"] else "ungated", summ[0]["realised"], summ[0]["diverged"]))
-    ctx.notes.append("schedule replay: %d schedules, %d realised exactly as the implementation-shaped model predicts, %d diverged (%s)" % (
-        summ[0]["behaviours"], summ[0]["realised"], summ[0]["diverged"], "gated" if state["hook"] else "ungated: tuner order not forced"))
+    model = "ordered-tuner model (repair)" if ordered else "unordered-tuner model (pinned code)"
+    ctx.log("listener level: %d TLC schedules of the %s executed (%s), %d realised step by step as the model predicts, %d diverged" % (
+        summ[0]["behaviours"], model, "gated" if state["hook"] else "ungated", summ[0]["realised"], summ[0]["diverged"]))
+    ctx.notes.append("schedule replay, %s: %d schedules, %d realised exactly as the implementation-shaped model predicts, %d diverged (%s)" % (
+        model, summ[0]["behaviours"], summ[0]["realised"], summ[0]["diverged"], "gated" if state["hook"] else "ungated: tuner order not forced"))
     ctx.sample({"kind": "tlc-schedule", "steps": [_short(s) for s in behs[0]]})
+    return summ[0]
 
 
 def _server(ctx, state):
